@@ -253,7 +253,8 @@ def check(pid, tier='quick', seed=0, shared=None, write_evidence=True, quiet=Fal
                     if f['label'] is None:
                         inconclusive.append(f'{wname}: unlabelled contract clause of {fq} failed: line {f["line"]}')
                     else:
-                        failed_labels.setdefault(f['label'], []).append(f)
+                        for fl_ in f.get('labels') or [f['label']]:
+                            failed_labels.setdefault(fl_, []).append(f)
                 else:
                     if f['label'] is not None:
                         failed_labels.setdefault(f['label'], []).append(f)
